@@ -327,6 +327,10 @@ func c11Run(c *Ctx) {
 		histCase(c, GenDecl(c.Sub("dh"), histChoiceCfg()), []string{"choices-in-place", "choices-replaced"}, []string{"parse"})
 		return
 	}
+	if nInt := int64(len(c11IntKinds) * 35 * 57 * len(c11Spell)); c.K >= nInt && c.K%31 == 9 {
+		c11OptionalList(c)
+		return
+	}
 	cs, cell := c11Gen(c)
 	t := cs.T
 	d := &Decl{}
@@ -581,4 +585,84 @@ func init() {
 		LevelNote:   "Trusted: the reference conversion functions (self-tested against hand-computed values at setup).",
 		DesignRef:   "§4 C11",
 	})
+}
+
+// c11OptionalList: an optional-argument slice option given bare stores its whole optional-value list - every
+// entry converted exactly, and a bad entry anywhere in the list rejected.
+func c11OptionalList(c *Ctx) {
+	r := c.R
+	kind := []TK{KInt, KUint8, KDuration, KFloat64, KInt8}[r.Intn(5)]
+	t := TypeSpec{K: kind, W: []Wrap{WSlice, WSlicePtr}[r.Intn(2)]}
+	n := r.Range(2, 4)
+	bad := -1
+	if r.Chance(2, 3) {
+		bad = r.Intn(n) // position of the bad entry (also first or middle, not only last)
+	}
+	var vals []string
+	for i := 0; i < n; i++ {
+		if i == bad {
+			vals = append(vals, r.Pick([]string{"zz", "1x", "", "99999999999999999999999", "--", "0x"}))
+		} else {
+			vals = append(vals, GenScalarText(r, kind, 0, 0))
+		}
+	}
+	d := &Decl{}
+	root := &Cmd{ID: d.NewID(), Name: "app"}
+	root.G = &Grp{Cmd: root, Field: "G0"}
+	d.Root = root
+	d.Cmds = append(d.Cmds, root)
+	d.Grps = append(d.Grps, root.G)
+	o := &Opt{ID: d.NewID(), Field: "Val", Long: "val", Short: 'v', T: t, Optional: true, OptionalValues: vals, NoUnquote: true, Grp: root.G, Cmd: root}
+	root.G.Opts = append(root.G.Opts, o)
+	d.Opts = append(d.Opts, o)
+	b := d.Build()
+	args := []string{r.Pick([]string{"--val", "-v"})}
+	c.Case(func() interface{} {
+		return map[string]interface{}{"type": t.String(), "optional_values": vals, "argv": args, "tag": o.Tag()}
+	})
+	if b.Err != nil {
+		c.Violate("setup-error", "declaration rejected: %v", b.Err)
+		return
+	}
+	var err error
+	if pi := safely(func() { _, err = b.P.ParseArgs(args) }); pi != nil {
+		c.Violate("panic:"+panicSite(pi.Stack), "parse panicked: %s", pi.Value)
+		return
+	}
+	c.Count("conversions", int64(len(vals)))
+	want := newZero(t)
+	cls := MustAccept
+	for _, v := range vals {
+		rv := RefScalar(kind, 0, v)
+		if rv.Cls == MustReject {
+			cls = MustReject
+			break
+		}
+		if rv.Cls == MayEither {
+			cls = MayEither
+		}
+		applyRef(want, t, 0, v)
+	}
+	cell := fmt.Sprintf("optional-value-list/%s", kind)
+	switch {
+	case cls == MustReject:
+		fe, _ := err.(*flags.Error)
+		if fe == nil || fe.Type != flags.ErrMarshal {
+			c.Violate("must-reject-accepted:optional-value-list", "%s optional values %q: entry %d is not a value of the type, but the bare flag was answered with %v and the field holds %s", t, vals, bad, err, Canon(o.Val))
+			return
+		}
+		c.Held(cell+"/rejected", fmt.Sprintf("n=%d bad=%d", n, bad))
+	case cls == MustAccept:
+		if err != nil {
+			c.Violate("must-accept-rejected:optional-value-list", "%s optional values %q rejected: %v", t, vals, err)
+			return
+		}
+		if got, w := Canon(o.Val), Canon(want); got != w {
+			c.Violate("inexact:optional-value-list", "%s optional values %q stored as %s, denoted %s", t, vals, got, w)
+			return
+		}
+		c.Held(cell+"/accepted", fmt.Sprintf("n=%d", n))
+	default:
+		c.Held(cell+"/liberal-form", fmt.Sprintf("n=%d", n))
+	}
 }
